@@ -483,7 +483,7 @@ class Gen:
                     p = rnd.choice(list(anc(lk[1]) - {0}) + [lk[1], lk[1]])
             name = rnd.choice(NAMES)
             if rnd.random() < 0.08:
-                name = "#%d" % rnd.randint(0, 9)
+                name = rnd.choice(["#%d" % rnd.randint(0, 9), "#N", "#F", "#b", "#t", "#f", "#B", "#o", "#T", "#fs"])
             ss = " ".join(map(str, specs))
             oss = " ".join(map(str, os_))
             calls = ["lookup|%d|%s|%d|%s" % (q, ss, p, name)]
@@ -499,6 +499,17 @@ class Gen:
             # lookup must precede lookup1 once for the agreement check; repeat some calls warm
             L.extend(calls)
             L.extend(rnd.sample(calls, min(len(calls), 2)))
+            if name == "" and rnd.random() < 0.35:
+                # the caches for the unnamed registration are warm now (positive or negative entry): a FALSY non-string name selects
+                # the same cache slot and must still be rejected on every single-object path (and a truthy one as well)
+                bad = rnd.choice(["#N", "#0", "#F", "#b", "#t", "#f", "#fs", "#B", "#o"])
+                again = ["lookup|%d|%s|%d|%s" % (q, ss, p, bad)]
+                if len(specs) == 1:
+                    again += ["lookup1|%d|%s|%d|%s" % (q, ss, p, bad), "qadapter|%d|%s|%d|%s|q" % (q, oss, p, bad),
+                              "qadapter|%d|%s|%d|%s|h" % (q, oss, p, bad)]
+                again.append("qadapter|%d|%s|%d|%s|m" % (q, oss, p, bad))
+                rnd.shuffle(again)
+                L.extend(again)
             pp = "N" if rnd.random() < 0.2 else str(p)
             L.append("subs|%d|%s|%s" % (q, ss, pp))
             L.append("subscribers|%d|%s|%s" % (q, oss, pp))
